@@ -8,7 +8,7 @@ CONSTANTS
   MaxSrv = 1
   MaxHout = 1
   MaxCtrlC = 1
-  MaxText = 1
+  MaxText = 0
   InitBeforePublish = TRUE
   ErrArms = {FALSE}
 INVARIANTS NotStuck
